@@ -255,7 +255,7 @@ fn c08b(ctx: &Ctx, info: &LangInfo, h: &Harness, bound: usize, res: &mut ShardRe
         if rr.trace.iter().any(|p| p.running_enabled && p.chosen != 0) { nontrivial += 1; }
         outcomes.insert(crate::util::fnv(&choices.iter().map(|&c| c as u8).collect::<Vec<u8>>()) % 1000);
     };
-    let (count, capped) = sched::explore(bound, if ctx.quick() { 4000 } else { 60000 }, &mut exec, &mut visit);
+    let (count, capped) = sched::explore(if ctx.mini() { 0 } else { bound }, if ctx.quick() { 4000 } else { 60000 }, &mut exec, &mut visit);
     res.transitions += count;
     res.states += count;
     res.nontrivial += nontrivial;
@@ -286,7 +286,7 @@ fn docs_for(name: &str) -> Vec<&'static str> {
 pub fn worker(ctx: &Ctx, res: &mut ShardResult) {
     alloc::install();
     sched::install_hook();
-    let depth = if ctx.quick() { 3 } else { 4 };
+    let depth = if ctx.mini() { 2 } else if ctx.quick() { 3 } else { 4 };
     let bound = if ctx.quick() { 1 } else { 2 };
     let mut idx = 0usize;
     for z in crate::zoo::core_zoo().iter() {
